@@ -1,4 +1,5 @@
 import Txtpp.Lemmas.MachineSpec
+import Txtpp.Model.Safe
 import Txtpp.Lemmas.ProjectFacts
 /-! The write scope of a pass, stated over the *source text*: every path a pass (and a whole run)
     adds to the touch set is the output path of a processed source or the resolution of the first
@@ -93,19 +94,6 @@ end Refine
 
 namespace Txt
 open Refine (Sem machine parse Block)
-
-/-- a world in which nothing can be done: used only to name the grammar of a source text -/
-def nullWorld : World Unit where
-  readInclude _ _ := none
-  depOf _ _ := none
-  run _ _ := (none, ())
-  writeTemp _ _ _ := none
-  removeTemp _ _ := none
-
-/-- the blocks (text lines and complete directives) of a source text, as the preprocessor groups
-    them in `mode` (clean mode reads a prefix-less multi-line directive start as text) -/
-def srcBlocks (mode : Mode) (lines : List Str) : Option (List (Block Directive)) :=
-  parse (txtppSem nullWorld mode []) none lines
 
 theorem parse_eq_srcBlocks {W : Type} (Wd : World W) (mode : Mode) (le : Str) (lines : List Str) :
     parse (txtppSem Wd mode le) none lines = srcBlocks mode lines :=
